@@ -176,13 +176,16 @@ func (l *OpLib) blockOf(name string) *Op {
 	if !strings.HasPrefix(name, "blk[") || !strings.HasSuffix(name, "]") {
 		return nil
 	}
-	parts := strings.Split(name[4:len(name)-1], "+")
+	parts := splitTop(name[4 : len(name)-1])
 	var comps []*Op
 	dev := 0
 	for _, pn := range parts {
 		c, ok := l.ops[pn]
 		if !ok {
-			return nil
+			// a component may itself be a composite (tx[...] inside blk[...])
+			if c = l.txOf(pn); c == nil {
+				return nil
+			}
 		}
 		comps = append(comps, c)
 		dev += c.Dev
@@ -207,6 +210,26 @@ func (l *OpLib) blockOf(name string) *Op {
 	}}
 	l.ops[name] = op
 	return op
+}
+
+// splitTop splits at the '+' signs that are not inside brackets.
+func splitTop(s string) []string {
+	var out []string
+	depth, start := 0, 0
+	for i, r := range s {
+		switch r {
+		case '[':
+			depth++
+		case ']':
+			depth--
+		case '+':
+			if depth == 0 {
+				out = append(out, s[start:i])
+				start = i + 1
+			}
+		}
+	}
+	return append(out, s[start:])
 }
 
 // blockTriples: every ordered selection of three DIFFERENT ops of set as one block.
